@@ -278,6 +278,27 @@ func oracleFor(op *Sexp, res string) []string {
 		if want := "ok " + normPos(td, v, false).String(); res != want {
 			bad("value written under options %s read under options %s: got %s want %s", arg(1), arg(2), res, want)
 		}
+	case "mut":
+		// both encodings are functions of the value alone
+		c, err := parseCtx(op)
+		if err != nil || !strings.HasPrefix(res, "ok ") {
+			return nil
+		}
+		v1, e1 := parseVal(op.List[4])
+		v2, e2 := parseVal(op.List[5])
+		if e1 != nil || e2 != nil || len(fields) != 3 {
+			return nil
+		}
+		if !multiEntryMaps(v1) {
+			if want := hx(cfgRef(c.cfg).top(c.td, v1, c.tag)); fields[1] != want {
+				bad("first Marshal: got %s want %s", fields[1], want)
+			}
+		}
+		if !multiEntryMaps(v2) {
+			if want := hx(cfgRef(c.cfg).top(c.td, v2, c.tag)); fields[2] != want {
+				bad("Marshal after the value was changed in place: got %s want %s (the encoding of the new value)", fields[2], want)
+			}
+		}
 	case "xdecm":
 		// (xdecm cfgE cfgD T V PRIOR …): the repeated-field form appends, whichever configuration reads it
 		td, e1 := parseTyDef(op.List[3])
